@@ -17,7 +17,7 @@ import common
 from common import bf, cbf, coq_list, coq_bool
 
 GEN_GROUPS = ['GenArc']
-AGREE = ['Arc.v']
+AGREE = ['Arc.v', 'ArcParam.v']
 
 ROTS = [0.0, 90.0, -90.0, 180.0, 270.0, 360.0, 725.0]
 FLAGS = [(False, False), (False, True), (True, False), (True, True)]
@@ -547,9 +547,9 @@ def run(rep, tier, seed, replay=None):
         rep.cov['agreement_lemmas']['checked'] += len(va)
         rep.cov['agreement_lemmas']['failed'] = info['agree_failed']
         n = 300 if tier == 'quick' else 5000
-        # Arc._parameterize and derivative with symbolic n are known to be outside the
+        # derivative with a symbolic n is known to be outside the
         # translator subset; only a lost tie for point/derivative_k promotes the budget
-        lost = [k for k in info['untranslated'] if k not in ('gen_Arc_derivative', 'gen_Arc_parameterize')]
+        lost = [k for k in info['untranslated'] if k not in ('gen_Arc_derivative',)]
         if info['agree_failed'] or lost:
             n *= 4
         if replay:
